@@ -305,6 +305,7 @@ def lean_build(prop, repo_src):
         if r.returncode != 0:
             res['ok'] = False
             res['problems'].append('translator gen_tables.py: ' + r.stderr.strip())
+        res['generated_tables'] = generated_tables()
         # the context-free grammar of parse.y (bison's report), next to the tables: Gen/Grammar.lean
         r = subprocess.run([sys.executable, os.path.join(ROOT, 'tools', 'gen_grammar.py'), repo_src,
                             os.path.join(LEAN, 'Mdsort', 'Gen', 'Grammar.lean')], capture_output=True, text=True)
@@ -362,6 +363,19 @@ def lean_build(prop, repo_src):
                 else:
                     res['discharged'] += 1
     return res
+
+
+def generated_tables():
+    """What `Gen/Tables.lean` holds on this run: the names it defines (each read from the sources / platform headers of the tree
+    under check by tools/gen_tables.py) and a hash of its text - evidence of which constants the theorems were checked against."""
+    import gen_tables
+    path = os.path.join(LEAN, 'Mdsort', 'Gen', 'Tables.lean')
+    try:
+        text = open(path).read()
+    except OSError:
+        return {'file': 'lean/Mdsort/Gen/Tables.lean', 'names': [], 'sha256': None}
+    names, digest = gen_tables.generated_names(text)
+    return {'file': 'lean/Mdsort/Gen/Tables.lean', 'names': names, 'sha256': digest, 'generator': 'tools/gen_tables.py'}
 
 
 def import_closure(mod):
@@ -604,8 +618,10 @@ class Differential:
       `no-failing-input-found`, with the disagreeing requests in the replay file).
     """
 
-    def __init__(self, rep, harness_cmd, env=None, spec_ops=None, name='unit', oracles=None):
+    def __init__(self, rep, harness_cmd, env=None, spec_ops=None, name='unit', oracles=None, denv=None):
         self.rep = rep
+        # denv: environment of the Lean driver (None = the check's own); a stage that studies a locale passes the same LC_ALL to both sides
+        self.denv = denv
         # op -> function(req, impl_output) -> driver request (tuple) answering OK / BAD / NOTWF:
         # the specification evaluated as a predicate on the implementation's output
         self.oracles = oracles or {}
@@ -630,7 +646,7 @@ class Differential:
     def eval3(self, reqs):
         lines = [self.line(r) for r in reqs]
         impl = run_batch(self.harness, lines, self.env)
-        model = run_batch(self.driver, ['M ' + l for l in lines])
+        model = run_batch(self.driver, ['M ' + l for l in lines], self.denv)
         sidx = [i for i, r in enumerate(reqs) if self.has_spec(r[0]) or r[0] in self.oracles]
         slines = []
         for i in sidx:
@@ -642,7 +658,7 @@ class Differential:
                     slines.append('S ' + self.line(self.oracles[r[0]](r, impl[i])))
             else:
                 slines.append('S ' + lines[i])
-        sres = run_batch(self.driver, slines)
+        sres = run_batch(self.driver, slines, self.denv)
         spec = [None] * len(reqs)
         for i, s in zip(sidx, sres):
             if s == 'NOTWF' or s == 'BADOP':
@@ -746,6 +762,7 @@ def lean_gate(rep, prop, scratch, what_trusted):
         'checker_cmd': lb['checker_cmd'],
         'trusted_base': BASE_TRUSTED + list(what_trusted),
         'theorems': lb['axioms'],
+        'generated_tables': lb.get('generated_tables'),
     })
     rep.lean = lb
     if lb['problems']:
